@@ -54,6 +54,8 @@ static std::string quote(const std::string& s)
 
 static std::string sexpr_d(const expression_t& e, const SexprOpts& o, int depth);
 
+static thread_local bool g_type_expr_syms = false;
+
 static std::string type_sexpr_d(const type_t& t, int depth)
 {
     if (t.data == nullptr)
@@ -63,7 +65,7 @@ static std::string type_sexpr_d(const type_t& t, int depth)
     expression_t ex = t.get_expression();
     if (!ex.empty()) {
         SexprOpts o;
-        o.sym_types = false;
+        o.sym_types = g_type_expr_syms && depth < 6;
         return "<" + sexpr_d(ex, o, depth + 1) + ">";
     }
     int k = t.get_kind();
@@ -466,6 +468,12 @@ static json template_json(template_t& t, const SexprOpts& o)
 json docdump(Document& doc, const SexprOpts& o)
 {
     json j;
+    struct Flag
+    {
+        bool old;
+        explicit Flag(bool v): old(g_type_expr_syms) { g_type_expr_syms = v; }
+        ~Flag() { g_type_expr_syms = old; }
+    } flag(o.type_expr_syms);
     j["globals"] = decl_json(doc.get_globals(), o);
     json ts = json::array();
     for (auto& t : doc.get_templates())
